@@ -10,7 +10,7 @@ from ..engine.runner import Rule
 from ..engine.source import AnalysisError
 from . import C07
 from . import shared
-from .common import callee_name, calls_in
+from .common import callee_name, calls_in, norm_record_events
 
 EXPLANATION = (
     "Static analysis of crash consistency. Transaction regions: every function that executes SQL through the "
@@ -143,6 +143,7 @@ def rule_atomic_units(ctx):
     """R-C05-2."""
     ts = ctx.prog.func("executor.Executor.try_skip_job")
     for tr, st in flow.paths_of(ts):
+        tr = norm_record_events(ctx.prog, tr)
         mc = [k for k, e in enumerate(tr) if e[0] == "call" and e[1] == "step.mark_completed"]
         for k in mc:
             reg = flow.region_of(tr, k, DBCTX)
@@ -151,6 +152,7 @@ def rule_atomic_units(ctx):
             ctx.check(ok, ts.fq, "skip: output hashes and completion in one region", "skip completion is split over transactions: a crash between them leaves a PLANNED output under a SUCCEEDED step or the reverse", "one region", where=ctx.where_of(ts))
     ex = ctx.prog.func("executor.Executor.execute_job")
     for tr, st in flow.paths_of(ex):
+        tr = norm_record_events(ctx.prog, tr)
         so = [k for k, e in enumerate(tr) if e[0] == "call" and e[1] == "step.set_outcome"]
         mc = [k for k, e in enumerate(tr) if e[0] == "call" and e[1] == "step.mark_completed"]
         for k in so:
@@ -343,3 +345,6 @@ MUTANTS = [
 ]
 
 VARIANTS = []
+
+# a sketch of the F63/F64 repair (recording through state-selecting helpers): no rule of this property may alarm on it
+VARIANTS += [shared.REPAIR_SKETCH_F63]
